@@ -24,6 +24,8 @@ for d in dirs:
     prop, var = d.split("/")[-2], d.split("/")[-1]
     if "/mut2/" in d:
         var = {"a": "c", "b": "d"}[var]  # second wave
+    if "/mut3/" in d:
+        var = {"a": "e", "b": "f"}[var]  # third wave (fault / interleaving / restart / clock triggered)
     sid = prop + var
     dst = "/verif/seeded/" + sid
     if os.path.exists(os.path.join(dst, "meta.json")) and "--force" not in sys.argv:
